@@ -46,7 +46,7 @@ def payloadAccOk (k : Kind) (m : Xml) : Bool :=
 def durationsOf (ss : List Xml) : List (Option Nat) :=
   ss.map (fun s => match storyDuration s with | .ok d => d | .error _ => none)
 
-/-- the protocol's duration of one story from its payload fields (in eighths) -/
+/-- the protocol's duration of one story from its payload fields (in microseconds) -/
 def durationSpec (storyDur textTime mediaTime : Option Nat) : Option Nat :=
   match storyDur with
   | some d => some d
